@@ -47,3 +47,12 @@ Definition from_unix_milliseconds (s : f64) : option epoch := omap (fun r => mkE
 
 (* impl Add<f64> for Epoch (ops.rs): seconds * Unit::Second added in the epoch's own scale *)
 Definition epoch_add_f64 (e : epoch) (x : f64) : epoch := mkE (dur_add (dur e) (unit_mul_f64 Second x)) (scale e).
+
+(* Epoch::day_of_year (float, 1-based), year_days_of_year, Epoch::from_day_of_year (initializers.rs) *)
+Definition day_of_year (e : epoch) : option f64 :=
+  omap (fun d => fadd (to_unit d Day) (f_of_Z 1)) (duration_in_year_fast e).
+Definition from_day_of_year (year : Z) (days : f64) (t : timescale) : option epoch :=
+  match maybe_from_gregorian_fast year 1 1 0 0 0 0 t with
+  | inl s => Some (epoch_add s (unit_mul_f64 Day (fsub days (f_of_Z 1))))
+  | inr _ => None          (* from_gregorian panics on an invalid date *)
+  end.
